@@ -79,8 +79,13 @@ def detector_cfg(draw, allow_imperfect=True):
 
 @st.composite
 def sampling_case(draw, method=None):
-    kind = draw(st.integers(0, 3))
-    if kind == 0:
+    kind = draw(st.integers(0, 4))
+    if kind == 4:
+        # dense interferometer with a herald that expects exactly one photon: bunching onto the herald mode
+        n = draw(st.integers(2, 4))
+        prog = {"n": n, "ops": [["unitary", 0, "haar", n, draw(st.integers(0, 10 ** 6))],
+                                ["herald", 1, draw(st.integers(0, n - 1)), draw(st.integers(0, n - 1))]]}
+    elif kind == 0:
         prog = draw(gen.addition_tree(max_n=3, max_adds=2))
     elif kind == 1:
         prog = draw(gen.program(min_n=2, max_n=4, depth=1, max_ops=5, max_herald_photons=1))
@@ -103,9 +108,11 @@ def sampling_case(draw, method=None):
     n = draw(st.sampled_from([5000, 2000, 5000, 20000, 0, 1]))
     if m in ("sample", "qs_sample"):
         n = draw(st.sampled_from([2000, 4000, 1]))
+    det["mutate"] = draw(st.booleans())
     return {"prog": prog, "input": vin, "method": m, "det": det, "ps": ps,
             "min_det": draw(st.sampled_from([0, 0, 1, 2, 3])), "N": n,
-            "seed": draw(st.integers(0, 2 ** 31 - 1))}
+            "seed": draw(st.integers(0, 2 ** 31 - 1)),
+            "seed_type": draw(st.sampled_from(["int", "int", "np.int64", "float"]))}
 
 
 def full_state(vis, heralds, n_modes):
@@ -127,6 +134,10 @@ def run_sampling(case):
     ps = case["ps"]
     method = case["method"]
     N, seed, min_det = case["N"], case["seed"], case["min_det"]
+    if case.get("seed_type") == "np.int64":
+        seed = np.int64(seed)           # integer-valued seeds of other numeric types are accepted as seeds
+    elif case.get("seed_type") == "float":
+        seed = float(seed)
     fin = list(full_state(vin, hin, n)) + [0] * (U.shape[0] - n)
     full_ref = marginal_distribution(U, n, fin)          # over all circuit modes
     labels = {method}
@@ -168,8 +179,17 @@ def run_sampling(case):
     threshold_conflict = (not det["pc"]) and max(hout.values(), default=0) > 1
 
     if method in ("N_inputs", "N_outputs", "sample"):
-        d = emulator.Detector(efficiency=det["eff"], p_dark=det["dark"], photon_counting=det["pc"])
-        smp = emulator.Sampler(c, in_state, detector=d)
+        if det.get("mutate"):
+            # a detector configured through its properties after construction
+            d = emulator.Detector()
+            smp = emulator.Sampler(c, in_state, detector=d)
+            smp.detector.efficiency = det["eff"]
+            smp.detector.p_dark = det["dark"]
+            smp.detector.photon_counting = det["pc"]
+            labels.add("detector-set-after-construction")
+        else:
+            d = emulator.Detector(efficiency=det["eff"], p_dark=det["dark"], photon_counting=det["pc"])
+            smp = emulator.Sampler(c, in_state, detector=d)
         detected = detector_response(full_ref, det["eff"], det["dark"], det["pc"])
         if det["eff"] < 1:
             labels.add("efficiency<1")
@@ -219,8 +239,7 @@ def run_sampling(case):
                 fn(N, post_select=real_ps, min_detection=min_det, seed=seed)
             except (SamplerError, ValueError):
                 return {"nontrivial": False, "labels": ["nothing-accepted"]}
-            if p_acc == 0:
-                raise Violation("sample_N_outputs returned although nothing is accepted", key="n-outputs-empty")
+            # conditioning on an event of (numerically) zero probability: neither outcome is asserted
             return {"nontrivial": False, "labels": ["nothing-accepted"]}
         res = call("sample_N_outputs", fn, N, post_select=real_ps, min_detection=min_det, seed=seed)
         check_states(res, acc, "sample_N_outputs")
@@ -236,7 +255,7 @@ def run_sampling(case):
         rejecting = p_acc < 0.95
     elif method == "sample":
         # full-mode detected distribution, no heralding / post-selection
-        pyrandom.seed(seed)
+        pyrandom.seed(int(seed))
         counts = {}
         for _ in range(N):
             s = call("Sampler.sample", smp.sample)
@@ -283,7 +302,7 @@ def run_sampling(case):
                                 key="seed-not-reproducible")
             counts = {tuple(k): v for k, v in res.items()}
         else:
-            pyrandom.seed(seed)
+            pyrandom.seed(int(seed))
             counts = {}
             for _ in range(N):
                 s = call("QuickSampler.sample", qs.sample)      # no prior distribution read
